@@ -2808,7 +2808,7 @@ def _stage_histories(ctx):
     consecutive constructions of every kind on the same uuids (x, a neighbour of x, x again; results poisoned; earlier
     results read again)"""
     rng = ctx.rng
-    sessions = _scripted_sessions() + [_random_session(rng) for _ in range(ctx.budget(400, 6000))]
+    sessions = _scripted_sessions() + [_random_session(rng) for _ in range(ctx.budget(400, 3000))]
     sessions = [h for h in sessions if _session_valid(h)]
     for h in sessions:
         for st in h["steps"]:
@@ -2853,12 +2853,14 @@ def _stage_histories(ctx):
 
 def _stage_shared_ids(ctx):
     if ctx.thorough():
-        ctx.run_cases(OPS["clip_eval"], _shared_cases(ctx, ["a0", "a1"], 4))
-        ctx.run_cases(OPS["clip_eval"], _shared_cases(ctx, ["a0", "a1", "a2"], 2, foreign=True))
+        ctx.run_cases(OPS["clip_eval"], _shared_cases(ctx, ["a0", "a1"], 3))
+        ctx.run_cases(OPS["clip_eval"], _shared_cases(ctx, ["a0", "a1"], 4, paths=["ctor"]))
+        ctx.run_cases(OPS["clip_eval"], _shared_cases(ctx, ["a0", "a1", "a2"], 2))
+        ctx.run_cases(OPS["clip_eval"], _shared_cases(ctx, ["a0", "a1", "a2"], 2, foreign=True, paths=["ctor", "json"]))
         ctx.exhaustive["identifiers shared across kinds"] = (
             "annotated and predicted sound events with identifiers from one universe: every pair of sub-lists of 2 identifiers "
-            "x every multiset of <= 4 matches over (universe + none)^2, and of 3 identifiers (+ a foreign one) x <= 2 matches, "
-            "x 4 paths")
+            "x every multiset of <= 3 matches over (universe + none)^2 x 4 paths (<= 4 matches through the constructor), and of "
+            "3 identifiers x <= 2 matches x 4 paths (with a foreign identifier through constructor and JSON)")
     else:
         ctx.run_cases(OPS["clip_eval"], _shared_cases(ctx, ["a0", "a1"], 2))
         ctx.run_cases(OPS["clip_eval"], _shared_cases(ctx, ["a0", "a1"], 3, paths=["ctor", "json"], sample=500))
@@ -2879,7 +2881,7 @@ def _stage_products(ctx):
     ctx.run_cases(OPS["clip_eval"], _product_cases(ctx, full=False))
     if ctx.thorough():
         full = _product_cases(ctx, full=True)
-        ctx.run_cases(OPS["clip_eval"], ctx.rng.sample(full, min(len(full), 40000)))
+        ctx.run_cases(OPS["clip_eval"], ctx.rng.sample(full, min(len(full), 20000)))
     ctx.exhaustive["option products"] = ("every pair of values of " + ", ".join(f"{k} ({len(v)})" for k, v in PRODUCT_DIMS.items())
                                          + f" with each of {len(_family())} representative arrangements")
 
